@@ -535,7 +535,7 @@ def check(rep, args):
                          "IEEE-754: bit patterns 0x3F800000..0x3FFFFFFF are the floats in [1,2)"],
         "samples": samples,
         "explanation": "GF(2)-linear abstract interpretation of Xorshift64::next_bits gives the 64x64 step matrix T; rank, order and "
-                       "primitivity are verified by exact bit-matrix arithmetic; structural rules cover seeding, the float bit budget, draw order and rejection guards",
+                       "primitivity are verified by exact bit-matrix arithmetic; seeding by dominance, the float bit budget by bit ranges, draw order and rejection samplers by interpreting the distributions with the generator as a stream of symbolic draws",
         "obligation_list": all_obl,
     }
     return "proof", cov, ["rounding at the top of an offset float range, integer-range arithmetic and unit length of normalised samples are not decided"]
